@@ -25,7 +25,8 @@ namespace XlModel.Ref
 open XlModel
 
 inductive OptKind
-  | shape | slicer | formCtl | formLinkSpin | formLinkCheck | pageBreak | sheetRow2
+  | shape | slicer | formCtl | formLinkSpin | formLinkCheck | pageBreak | sheetRow2 | sheetCol2
+  | streamSetRow | streamPageBreak | calcCell
   | table | pivotData | pivotLoc
   | dvSqref | sparkLoc | sparkRng | panesTopLeft | panesActive | panesSqref | ignoredErrors
   deriving DecidableEq, Repr
@@ -33,7 +34,9 @@ inductive OptKind
 def OptKind.ofString : String → Option OptKind
   | "shape" => some .shape | "slicer" => some .slicer | "formctl" => some .formCtl
   | "formlinkspin" => some .formLinkSpin | "formlinkcheck" => some .formLinkCheck
-  | "pagebreak" => some .pageBreak | "sheetrow2" => some .sheetRow2
+  | "pagebreak" => some .pageBreak | "sheetrow2" => some .sheetRow2 | "sheetcol2" => some .sheetCol2
+  | "streamsetrow" => some .streamSetRow | "streampagebreak" => some .streamPageBreak
+  | "calccell" => some .calcCell
   | "table" => some .table | "pivotdata" => some .pivotData | "pivotloc" => some .pivotLoc
   | "dvsqref" => some .dvSqref | "sparkloc" => some .sparkLoc | "sparkrng" => some .sparkRng
   | "panestl" => some .panesTopLeft | "panesactive" => some .panesActive
@@ -73,6 +76,10 @@ def rangeOk (s : List Char) : Bool :=
 (on a fresh workbook with everything else valid) -/
 def optAccepts : OptKind → List Char → Bool
   | .shape, s | .slicer, s | .formCtl, s | .pageBreak, s => decodeOk s
+  -- StreamWriter.SetRow / InsertPageBreak decode directly; CalcCellValue goes through the
+  -- getter path (ASCII upper-casing, then decoding), which accepts the same strings
+  | .streamSetRow, s | .streamPageBreak, s => decodeOk s
+  | .calcCell, s => (apiRef s).isSome
   | .formLinkSpin, s =>
     -- `if opts.CellLink != ""` guards the check
     s.isEmpty || decodeOk s
@@ -80,6 +87,10 @@ def optAccepts : OptKind → List Char → Bool
     -- two values: the second one goes to column + 1
     match cellNameToCoordinates s with
     | .ok (c, r) => (match coordinatesToCellName (c + 1) r false with | .ok _ => true | .error _ => false)
+    | .error _ => false
+  | .sheetCol2, s =>
+    match cellNameToCoordinates s with
+    | .ok (c, r) => (match coordinatesToCellName c (r + 1) false with | .ok _ => true | .error _ => false)
     | .error _ => false
   | .table, s => rangeOk s
   | .pivotData, s | .pivotLoc, s => match adjustRange s with | .ok _ => true | .error _ => false
